@@ -403,6 +403,10 @@ class Element(Node):
         # Load the attributes from the 'attributes' argument
         if attributes:
             for attr, value in attributes.items():
+                if attr == 'parent':
+                    # like the keyword: attach when the element is complete
+                    if parent is None: parent = value
+                    continue
                 self.setAttribute(attr, value)
         # Load the qualified attributes
         if qattributes:
